@@ -74,6 +74,7 @@ class Selector:
 
     def _find(self, stmts, outer, depth):
         here = [f for f in find(stmts, "for") if self._is_arm_loop(f)]
+        here = [f for f in here if not any(g is not f and Q.contains(g[3], f) for g in here)]     # an arm loop inside another one belongs to that one's trial
         for f in here:
             self.candidates.append((f, stmts, outer))
         if here or depth <= 0:
@@ -95,11 +96,40 @@ class Selector:
             self._trees = [t for t, _ in Q.expand_via(self.sc, self.loop[3], 2, self.follow, self.it["mod"])]
         return self._trees
 
+    def nested(self):
+        """ids of the nodes inside arm loops nested in this one (e.g. the kind validation of the other arms, when it is written in line):
+        they try OTHER arms and are not part of this arm's trial"""
+        if not hasattr(self, "_nested"):
+            self._nested = set()
+            for f in find(self.loop[3], "for"):
+                if ARMS_RX.search(self.sc.text(f[2])):
+                    self._nested |= {id(x) for x in Q.walk_no_closure(f[3])} | {id(x) for x in find(f[3], "call")}
+        return self._nested
+
     def calls(self, pred):
-        return [r[0] for r in Q.calls_via(self.sc, self.loop[3], pred, 2, self.follow, self.it["mod"])]
+        return [r[0] for r in Q.calls_via(self.sc, self.loop[3], pred, 2, self.follow, self.it["mod"]) if id(r[0]) not in self.nested()]
 
     def arm_vars(self):
-        return set(self.sc.decl.get(id(self.loop), []))
+        """bindings that stand for the arm under test: the loop pattern's, their aliases (`let a = arm`), and `&ARMS[i]` / `ARMS.get(i)` for a loop variable i"""
+        if hasattr(self, "_arm_vars"):
+            return self._arm_vars
+        sc = self.sc
+        out = set(sc.decl.get(id(self.loop), []))
+        owners = [o for t in self.trees() for o in list(find(t, "let")) + list(find(t, "letc"))]
+        for _round in range(3):
+            for o in owners:
+                for b in sc.decl.get(id(o), []):
+                    if b in out or b.src is None:
+                        continue
+                    x = Q.strip(b.src)
+                    if is_node(x) and x[0] == "mcall" and x[2] in ("get", "get_unchecked", "nth") and x[4]:
+                        x = ["index", x[1], x[4][0]]
+                    if sc.binding(x) in out:
+                        out.add(b)
+                    elif is_node(x) and x[0] == "index" and ARMS_RX.search(sc.text(x[1]) + ".") and any(sc.mentions(x[2], v) for v in list(out)):
+                        out.add(b)
+        self._arm_vars = out
+        return out
 
     def envs(self):
         out = []
@@ -296,10 +326,13 @@ def run(F, rep, tier):
             continue
         sel = Selector(fns, it)
         n = len(sel.candidates)
-        if n == 0 and Q.reaches(fns, it["body"], is_matcher, 3, lambda h: Q.is_private(h)) and not list(find(it["body"], "for")):
-            # the selection still happens, but not as a `for` over the arms that this rule can read (iterator chain, recursion, ...)
-            rep.note("undecided", {"rule": "C16-R1", "fn": name, "why": "the pattern matcher is reached but no `for` loop over the arms was found"})
-            continue
+        if n == 0:
+            # the selection may still happen, but not as a `for` over the arms: a `while let` / `loop` / iterator adaptor that reaches the matcher
+            other = [l for l in list(find(it["body"], "while")) + list(find(it["body"], "loop")) + list(find(it["body"], "closure"))
+                     if Q.reaches(fns, l, is_matcher, 2, Q.is_private)]
+            if other:
+                rep.note("undecided", {"rule": "C16-R1", "fn": name, "why": "the pattern matcher is reached from a %s, not from a `for` loop over the arms" % other[0][0]})
+                continue
         if not rep.check(n == 1, "C16-R1", "%s:arm-loop" % name, "%s: expected one arm-selection loop, found %d" % (name, n)):
             continue
         check_selector(rep, sel, name)
